@@ -8,6 +8,7 @@ import (
 	"strings"
 
 	"github.com/tobgu/qframe"
+	"github.com/tobgu/qframe/aggregation"
 	"github.com/tobgu/qframe/config/groupby"
 
 	"verif/harness/core"
@@ -193,6 +194,14 @@ func fold(col model.Col, rows []int, fn string) model.Cell {
 			}
 		}
 		return model.S(strings.Join(ps, ","))
+	case "strjoin":
+		var ps []string
+		for _, r := range rows {
+			if !col.Cells[r].Null {
+				ps = append(ps, col.Cells[r].S)
+			}
+		}
+		return model.S(strings.Join(ps, "|"))
 	}
 	panic("fold " + fn)
 }
@@ -215,6 +224,9 @@ var c04Aggs = []aggSpec{
 	{"majority", "vb", "mb", model.Bool},
 	{"join", "vs", "js", model.String},
 	{"join", "ve", "je", model.String},
+	// the library's own example aggregation: the non-null strings joined by the separator
+	{"strjoin", "vs", "ls", model.String},
+	{"strjoin", "ve", "le", model.String},
 	{"rec", "vi", "ri", model.Int},
 	{"rec", "vf", "rf", model.Float},
 	{"rec", "vb", "rb", model.Bool},
@@ -371,6 +383,8 @@ func checkGroupBy(c groupCase, qf qframe.QFrame, in model.Frame, by []string, gr
 		switch a.fn {
 		case "join":
 			fn = joinStrs
+		case "strjoin":
+			fn = aggregation.StrJoin("|")
 		case "rec":
 			switch a.kind {
 			case model.Int:
@@ -747,18 +761,26 @@ func groupSizeSweepRun(ctx *core.Ctx, op string) {
 	}
 }
 
-// manyRowsLayerRun: 257..1500 rows over 37 distinct keys (every key occurs again after any batch or
-// block boundary), int and string keys.
+// manyRowsLayerRun: 255..1500 rows over 37 distinct keys (every key occurs again after any batch or
+// block boundary) and 8191..20001 rows with thousands of keys, int and string keys.
 func manyRowsLayerRun(ctx *core.Ctx, op string) {
-	for _, n := range []int{255, 256, 257, 600, 1500} {
+	type spec struct{ n, keys int }
+	specs := []spec{{255, 37}, {256, 37}, {257, 37}, {600, 37}, {1500, 37},
+		// all keys distinct (a class first seen in the last rows must still get its row), around 2*4096 and beyond
+		{8191, 8191}, {8192, 8192}, {8193, 8193}, {10000, 10000}, {20001, 5000}}
+	for _, sp := range specs {
+		n := sp.n
 		for _, kind := range []model.Kind{model.Int, model.String} {
 			for _, gn := range []bool{false, true} {
+				if sp.keys > 37 && (kind == model.String) == gn {
+					continue // the large ones: int keys with Null(true), string keys with Null(false)
+				}
 				if !ctx.Mine() {
 					continue
 				}
 				k1 := model.Col{Name: "k1", Kind: kind}
 				for r := 0; r < n; r++ {
-					key := (r * 29) % 37
+					key := (r * 29) % sp.keys
 					switch {
 					case kind == model.Int:
 						k1.Cells = append(k1.Cells, model.I(key))
@@ -798,7 +820,7 @@ func init() {
 		ID:    "C04",
 		Level: "model_checking",
 		Rule: "case = (key pattern as restricted-growth string with nulls, hash value per key / per ungrouped null row, Null option, physical layout) for the table layer; " +
-			"(frame over per-type alphabets, key column selection and order, Null option, index shape) for the API layer, each with 15 aggregations incl. recording user functions and QFrames(). " +
+			"(frame over per-type alphabets, key column selection and order, Null option, index shape) for the API layer, each with 17 aggregations incl. recording user functions and the library's StrJoin and QFrames(). " +
 			"Non-trivial = two different keys share a bucket (table layer) / more than one group and fewer groups than rows (API layer); distinct by case content.",
 		Assumptions: common,
 		Bound: map[string]string{
